@@ -89,18 +89,19 @@ func (v c18Cfg) json() string {
 
 func genC18(c *Ctx) error {
 	c.ShardSize = 60
-	c.Notes["rule"] = "sequences of 1-5 initialisations on one chaincode (a token, a contract on the base contract alone, or a token with a chaincode-specific ext_config section and validator of its own, which then gets a valid / absent / invalid section): JSON configurations rendered from a structured value by field-wise mutation of a valid one (symbol / robot key / admin / issuer / setters missing, empty or ill-formatted, token section absent, unknown field, ill-typed value, truncated JSON), legacy positional argument lists for every known channel name and unknown ones (right / wrong counts, empty arguments), each sent with an admin-OU, ordinary or malformed creator. After every step: Init verdict, whether __config changed, and probes of the configuration in force (is an invocation refused for lack of configuration, the symbol in the metadata query, the wallets of the token section in force, which robot key opens batchExecute, whether a swap method is refused as disabled when called directly and as a task). Non-trivial: a sequence with at least one accepted and one rejected initialisation."
+	c.Notes["rule"] = "sequences of 1-5 initialisations on one chaincode (a token, a contract on the base contract alone, or a token with a chaincode-specific ext_config section and validator of its own, which then gets a valid / absent / invalid section): JSON configurations rendered from a structured value by field-wise mutation of a valid one (symbol / robot key / admin / issuer / setters missing, empty or ill-formatted, token section absent, unknown field, ill-typed value, truncated JSON), legacy positional argument lists for every known channel name and unknown ones (right / wrong counts, empty arguments), each sent with an admin-OU, ordinary or malformed creator, or one whose PEM data holds several certificates (the first is the caller's). After every step: Init verdict, whether __config changed, and probes of the configuration in force (is an invocation refused for lack of configuration, the symbol in the metadata query, the wallets of the token section in force, which robot key opens batchExecute, whether a swap method is refused as disabled when called directly and as a task). Non-trivial: a sequence with at least one accepted and one rejected initialisation."
 	rng := c.Rng
 	symbols := []string{"TT", "T", "tt", "T1", "TT-1", "TT-", "1T", "T_T", "", "TT-A-B", "AB9", "A1-9Z", "TTé"}
 	w0 := NewWorld()
 	goodAddr := w0.Issuer.AddrString()
 	addrs := []string{goodAddr, w0.AdminAcc.AddrString(), "", "0OIl", "2d 5", "abc"}
+	goodAddrs := []string{goodAddr, w0.AdminAcc.AddrString(), w0.FeeSet.AddrString(), w0.NewAccount(fpb.KeyType_ed25519).AddrString()}
 	n := c.N(150, 3000)
 	for i := 0; i < n; i++ {
 		w := NewWorld()
 		chanNames := []string{"tt", "nft", "ct", "curusd", "otf", "nmmmulti", "vote", "unknownch"}
-		chName := chanNames[rng.Intn(len(chanNames))]
-		if rng.Intn(2) == 0 {
+		chName := chanNames[1+rng.Intn(len(chanNames)-1)]
+		if rng.Intn(4) == 0 {
 			chName = "tt"
 		}
 		isToken := rng.Intn(3) > 0
@@ -131,7 +132,10 @@ func genC18(c *Ctx) error {
 				name  string
 			}{{w.Admin.Creator, true, "adminOU"}, {w.Client.Creator, false, "user"}, {[]byte{9, 9}, false, "garbage"},
 				{nearAdmins[0].Creator, false, "OU=administrators"}, {nearAdmins[1].Creator, false, "OU=sysadmin"}, {nearAdmins[2].Creator, false, "OU=non-admin"},
-				{nearAdmins[3].Creator, true, "OU=Admin"}}
+				{nearAdmins[3].Creator, true, "OU=Admin"},
+				// several certificates in the identity's PEM data: the first one is the caller's
+				{bundleCreator(w.Client, w.Admin), false, "bundle user+admin"}, {bundleCreator(w.Admin, w.Client), true, "bundle admin+user"},
+				{bundleCreator(nearAdmins[2], w.Admin, w.Admin), false, "bundle non-admin+admin+admin"}}
 			cr := creators[0]
 			if rng.Intn(4) == 0 {
 				cr = creators[1+rng.Intn(len(creators)-1)]
@@ -139,7 +143,8 @@ func genC18(c *Ctx) error {
 			var args []string
 			var argTerm string
 			var desc interface{}
-			if rng.Intn(4) == 0 && !isExt {
+			hasLayout := map[string]bool{"nft": true, "nmmmulti": true, "ct": true, "vote": true, "curusd": true, "otf": true}[chName]
+			if (rng.Intn(4) == 0 || (hasLayout && rng.Intn(2) == 0)) && !isExt {
 				// positional arguments (they cannot carry a chaincode-specific section, so not for that contract)
 				kind := map[string]int{"nft": 1, "nmmmulti": 1, "ct": 2, "vote": 2, "curusd": 3, "otf": 4}[chName]
 				want := map[int]int{0: 3, 1: 3, 2: 4, 3: 5, 4: 4}[kind]
@@ -153,6 +158,15 @@ func genC18(c *Ctx) error {
 				if wellFormedWrongCount {
 					cnt = []int{want + 1, want + 2, want - 1, want + 1}[rng.Intn(4)]
 					c.Count(fmt.Sprintf("positional_well_formed_count_%+d", cnt-want))
+				} else if rng.Intn(2) == 0 {
+					// the right number of well-formed values, the addresses all different: which role got which one is
+					// read off the probes
+					args = append(args, "platformski", []string{w.Robot.SKI, w.Client.SKI}[rng.Intn(2)])
+					for _, j := range rng.Perm(len(goodAddrs))[:want-2] {
+						args = append(args, goodAddrs[j])
+					}
+					cnt = 0
+					c.Count("positional_all_well_formed_" + chName)
 				}
 				for a := 0; a < cnt; a++ {
 					switch {
